@@ -192,6 +192,8 @@ where
     ) -> impl Future<Output = Result<usize>> + use<'a, S> {
         let this = Rc::clone(self);
         async move {
+            #[cfg(feature = "verif-hooks")]
+            crate::verif_hooks::preempt_point("concurrent.read").await;
             let this = TemporaryNonBlockingGuard::new(&this, fd);
             let waker = LazyCell::default();
             loop {
@@ -231,6 +233,8 @@ where
     ) -> impl Future<Output = Result<usize>> + use<'a, S> {
         let this = Rc::clone(self);
         async move {
+            #[cfg(feature = "verif-hooks")]
+            crate::verif_hooks::preempt_point("concurrent.write").await;
             let this = TemporaryNonBlockingGuard::new(&this, fd);
             let waker = LazyCell::default();
             loop {
